@@ -267,7 +267,8 @@ def pipeline_render(cfg):
     import string
     from mako.template import Template
     from mako import filters
-    tag = lambda name: (lambda s: "<%s:%s>" % (name, s))
+    # user filters are sensitive to the TYPE of what they are handed: the value rendered is an object, not a str
+    tag = lambda name: (lambda s: "<%s:%s>" % (name, s if isinstance(s, str) else "OBJECT"))
     ctx = {}
     for c in string.ascii_lowercase:
         if c not in "nhxu":
@@ -293,11 +294,18 @@ def pipeline_render(cfg):
             chain = list(pg) + chain
         if "n" not in (pg or []):
             chain = list(d) + chain
-    expected = value
-    for name in chain:
-        if name != "n":
+    class Value:
+        def __str__(self):
+            return value
+    applied = [name for name in chain if name != "n"]
+    obj = Value() if applied else value         # with nothing applied the value reaches the writer as it is: keep it a str
+    try:
+        expected = obj
+        for name in applied:
             expected = fn(name)(expected)
-    expected = str(expected)
+        expected = str(expected)
+    except (TypeError, AttributeError) as e:
+        expected = "raised: the filter does not take an object"
     src = ""
     if pg is not None:
         src += '<%%page expression_filter="%s"/>' % ", ".join(pg).replace('"', "'")
@@ -312,10 +320,16 @@ def pipeline_render(cfg):
     mod.__all__ = [k for k in ctx if k != "x"]
     sys.modules["c02_filters_mod"] = mod
     kw["imports"] = ["from c02_filters_mod import " + ", ".join(mod.__all__)]
-    try:
-        got = Template(src, **kw).render_unicode(x=value)
-    except Exception as e:
-        got = "raised %s: %s" % (type(e).__name__, e)
+    # once as configured, once more under strict_undefined (the filter flags are not variables; the filter functions are given)
+    for strict in (False, True):
+        try:
+            got = Template(src, strict_undefined=strict, **kw).render_unicode(x=obj, **({k: v for k, v in ctx.items() if k != "x"} if strict else {}))
+        except (TypeError, AttributeError) as e:
+            got = "raised: the filter does not take an object"
+        except Exception as e:
+            got = "raised %s: %s%s" % (type(e).__name__, e, " (strict_undefined)" if strict else "")
+        if got != expected:
+            break
     return (got, expected)
 
 
@@ -645,10 +659,13 @@ def pipeline_render_nonexpr(cfg, where):
     mod.__all__ = list(ctx)
     sys.modules["c02_filters_mod"] = mod
     kw["imports"] = ["from c02_filters_mod import " + ", ".join(mod.__all__)]
-    try:
-        got = Template(src, **kw).render_unicode()
-    except Exception as e:
-        got = "raised %s: %s" % (type(e).__name__, e)
+    for strict in (False, True):
+        try:
+            got = Template(src, strict_undefined=strict, **kw).render_unicode(**(dict(ctx) if strict else {}))
+        except Exception as e:
+            got = "raised %s: %s%s" % (type(e).__name__, e, " (strict_undefined)" if strict else "")
+        if got != expected:
+            break
     return (got, expected)
 
 
